@@ -112,6 +112,11 @@ pub struct Case {
     pub depth: Depth,
     /// style attributes riding along: `attrs % 6` underline style, `attrs / 6` flag bits
     pub attrs: u8,
+    /// history: the same encoder has first encoded a face whose colours are this translucent
+    /// version (alpha, same RGB as `color` or the RGB of `other`) -- what an encoder produced
+    /// for an earlier, different colour must not influence an opaque colour encoded later
+    #[serde(default)]
+    pub prelude: Option<(u8, bool)>,
 }
 
 // ---------------------------------------------------------------------------------------
@@ -628,6 +633,20 @@ fn fail_with_case(c: &Case, f: Fail) -> Fail {
 pub fn check_case(c: &Case) -> Outcome {
     let t = tables();
     let mut ctx = Ctx::new();
+    if let Some((alpha, same_rgb)) = c.prelude {
+        // earlier use of the same encoder: a translucent colour in every colour slot
+        let rgb = if same_rgb { c.color } else { c.other };
+        let col = Some(RGBA::new(rgb[0], rgb[1], rgb[2], alpha));
+        let enc = &mut ctx.encs[c.depth.idx()];
+        let mut sink = Vec::new();
+        let _ = guard_val(|| enc.encode(&mut sink, TerminalCommand::Face(Face::new(col, col, FaceAttrs::EMPTY))))
+            .map_err(|f| fail_with_case(c, f))?;
+        sink.clear();
+        let _ = guard_val(|| {
+            enc.encode(&mut sink, TerminalCommand::FaceModify(FaceModify { underline_color: col, ..FaceModify::default() }))
+        })
+        .map_err(|f| fail_with_case(c, f))?;
+    }
     let companion = c.companion.then_some(c.other);
     let specs = observe(&mut ctx, c.color, companion, c.slot, c.depth, c.attrs)
         .map_err(|f| fail_with_case(c, f))?;
@@ -650,6 +669,7 @@ pub fn check_case(c: &Case) -> Outcome {
         .label(format!("{:?}", c.depth))
         .label(format!("{:?}", c.slot))
         .label_if(c.companion, "companion-colours")
+        .label_if(c.prelude.is_some(), "encoder-used-before-for-a-translucent-colour")
         .label_if(c.attrs != 0, "with-attributes")
         .label_if(is_palette(c.color), "palette-colour");
     match main {
@@ -835,6 +855,7 @@ fn sweep_chunk(colour_at: &(dyn Fn(u64) -> [u8; 3] + Sync), start: u64, end: u64
                             slot,
                             depth,
                             attrs: 0,
+                            prelude: None,
                         };
                         let f = fail_with_case(&case, f);
                         acc.fail = Some((ord, case, f));
@@ -951,6 +972,7 @@ fn run_sweep(tier: Tier, sw: &mut Sweep) -> Result<(), (Case, Fail)> {
                         slot,
                         depth: Depth::Gray,
                         attrs: 0,
+                        prelude: None,
                     };
                     let fail = Fail::new(
                         "gray/not-monotone",
@@ -1078,14 +1100,19 @@ fn case_strategy() -> BoxedStrategy<Case> {
         proptest::sample::select(SLOTS.to_vec()),
         depth,
         attrs,
+        proptest::option::weighted(
+            0.15,
+            (prop_oneof![1 => Just(0u8), 1 => Just(64u8), 1 => Just(128u8), 1 => Just(254u8), 2 => any::<u8>()], proptest::bool::weighted(0.7)),
+        ),
     )
-        .prop_map(|(color, far, d, near, companion, slot, depth, attrs)| Case {
+        .prop_map(|(color, far, d, near, companion, slot, depth, attrs, prelude)| Case {
             color,
             other: if near { shift3(color, d) } else { far },
             companion,
             slot,
             depth,
             attrs,
+            prelude,
         })
         .boxed()
 }
@@ -1113,7 +1140,7 @@ impl Property for C20 {
         format!(
             "sweep (quick): the 16^3 lattice (step 17) + all 240 palette entries +-1 per channel + every grey (v,v,v) = {} distinct colours; \
              sweep (thorough): ALL 2^24 colours; each x 5 slots (Face fg/bg, FaceModify fg/bg/underline colour) x 3 depths, plus global grey-level monotonicity over the swept colours. \
-             generated: colour uniform / channel values at nearest-level boundaries of the reference palette / palette entries +-2 / near-greys / luma near a grey threshold; \
+             generated: colour uniform / channel values at nearest-level boundaries of the reference palette / palette entries +-2 / near-greys / luma near a grey threshold; in 15% of the generated cases the encoder has first been used for a translucent colour (alpha 0/64/128/254/any) with the same RGB or with the partner colour's RGB, in all three roles (the sweeps run all colours through one encoder per depth, a history of opaque colours); \
              a second colour (near the first or independent) as monotonicity partner and optional companion in the other colour slots; optional style attributes. \
              non-trivial = the colour is not itself one of the 240 palette entries",
             quick_colours().len()
